@@ -139,12 +139,34 @@ Definition c15_identical_when_plain (k : wr_case) : bool :=
   if has_gz (w_chain k) && negb (has_sl (w_chain k)) && negb (contains_gzip (w_ae k)) && Z.eqb (nth 0 (w_obs k) 0) 1
   then Z.eqb (nth 2 (w_obs k) 0) 1 else true.
 
+(* spec-level eligibility, from the handler's own script: the response may be compressed only if ... *)
+Fixpoint first_gz (chain : list plug) : option gzcfg :=
+  match chain with [] => None | PGzip c :: _ => Some c | _ :: t => first_gz t end.
+Definition script_sets_ce (cs : list wcall) : bool := existsb (fun c => match c with CSet 3 _ => true | _ => false end) cs.
+Definition eligible (k : wr_case) : bool :=
+  match first_gz (w_chain k) with
+  | None => false
+  | Some cfg =>
+      let d := view (base_run base0 (w_script k)) in
+      let total := written_total (w_script k) in
+      contains_gzip (w_ae k) && (0 <? total) && (gz_min cfg <=? total) && negb (script_sets_ce (w_script k))
+      && (match v_ct d with Some ct => memZ ct (gz_types cfg) | None => false end)
+      && body_allowed (v_status d)
+  end.
+(* compressed by the plugin (Content-Encoding gzip observed although the handler did not set one) => eligible *)
+Definition c15_conditions (k : wr_case) : bool :=
+  if has_gz (w_chain k) && Z.eqb (nth 5 (w_obs k) 0) 1 && negb (script_sets_ce (w_script k)) then eligible k else true.
+(* not eligible => delivered byte- and header-identical to the direct exchange *)
+Definition c15_identical_unless_eligible (k : wr_case) : bool :=
+  if has_gz (w_chain k) && negb (has_sl (w_chain k)) && negb (eligible k) && Z.eqb (nth 0 (w_obs k) 0) 1 && wf_script (w_script k)
+  then Z.eqb (nth 2 (w_obs k) 0) 1 else true.
+
 (* result vector: [diff; mon_c14_bound; mon_c14_request; mon_c14_transparent; mon_c15_decodes; mon_c15_only_if;
                    mon_c15_plain_identical; nt_c14; nt_c15] *)
 Definition eval_wr_case (k : wr_case) : list Z :=
   [ obs_match (predict k) (w_obs k);
     b2z (c14_bound k); b2z (c14_request k); b2z (c14_transparent k);
-    b2z (c15_decodes k); b2z (c15_only_if k); b2z (c15_identical_when_plain k);
+    b2z (c15_decodes k); b2z (c15_only_if k && c15_conditions k); b2z (c15_identical_when_plain k && c15_identical_unless_eligible k);
     b2z (has_sl (w_chain k) && ((Z.abs (written_total (w_script k) - min_resp (w_chain k)) <=? 1)
                                 || negb (body_allowed (handler_status (w_script k)))
                                 || (2 <=? zlen (filter (fun c => match c with CWrite _ => true | _ => false end) (w_script k)))));
